@@ -144,6 +144,7 @@ type Trace struct {
 	Panic         string
 	Datagrams     int
 	Storms        int
+	StreamStorm   bool // a stream direction exceeded its write budget (live-lock)
 	Aliens        int
 	TailDrops     int
 	PoolViolation []string
@@ -273,6 +274,7 @@ func Run(t *testing.T, sc Scenario, track bool) (tr Trace) {
 		var tk endpoints.Ticker
 		var cli, srv conn
 		var plink *memnet.PacketLink
+		var streamStorm func() bool
 		var sizes func() (Sizes, Sizes)
 
 		// ---- the server application ----------------------------------------------------------------
@@ -431,6 +433,7 @@ func Run(t *testing.T, sc Scenario, track bool) (tr Trace) {
 			}
 		} else {
 			slink := memnet.NewStreamLink(sc.Stream)
+			streamStorm = slink.Storm
 			// The library never advertises Block-Wise-Transfer in its own CSM; a peer that does is
 			// modelled by a CSM frame (with the option, and the peer's Max-Message-Size) placed on
 			// the stream before each endpoint starts writing.
@@ -721,6 +724,9 @@ func Run(t *testing.T, sc Scenario, track bool) (tr Trace) {
 		observers = map[string]*obsState{}
 		obsMu.Unlock()
 		bubble.Wait()
+		if streamStorm != nil && streamStorm() {
+			tr.StreamStorm = true
+		}
 		if plink != nil {
 			tr.Datagrams = len(plink.Log())
 			if Debug {
